@@ -20,6 +20,7 @@ RULE = (
     "past the last 16-sector multiple."
     " Embedded descriptors that fill their area to the last byte (any header attribute last, with or without a final newline); images also opened behind gzip.open() on a real file, through a minimal file object, or by a second reader on the same handle after the first was dropped; a second process variant runs with the package's debug logging switched on."
 )
+RULE += ' Round 10: transient OSError then retry; content flavours; two readers over one handle; anonymous temp-file handles.'
 ASSUMPTIONS = [
     "allocated grains live at sector >= 2 (GTE 0/1 are the unallocated/zero sentinels of the format)",
     "flat extents are opened directly (no descriptor), so their first bytes are never a sparse magic or '# Di'",
